@@ -36,7 +36,8 @@ Definition must_reject (f : file_cfg) (c : cli_opts) : bool :=
   let lookup := pick (c_lookup c) (f_lookup f) in
   (negb (N.eqb lookup 0) && match c_commodity c, f_commodity f with None, None => true | _, _ => false end)
   || (negb (N.eqb lookup 3) && match c_before c with Some _ => true | None => false end)
-  || (N.eqb lookup 3 && match c_before c with Some _ => false | None => true end).
+  || (N.eqb lookup 3 && match c_before c with Some _ => false | None => true end)
+  || (pick (c_strict c) (f_strict f) && existsb (N.eqb 0) (pick (c_exports c) (f_exports f)) && negb (f_eq_declared f)).
 
 (* impl: None = rejected. bits: 1 model agrees, 2 property holds on the observation *)
 Definition c19_case (f : file_cfg) (c : cli_opts) (impl : option eff) : N :=
